@@ -322,4 +322,34 @@ mutual
         Members.hand_congr cfg cfg' t (fun x hx => h x (Or.inr hx)) v]
 end
 
+/-! ### several formulas on the same catalogs -/
+
+theorem runM_append (fs : List Space) : ∀ (l₁ l₂ : List MOp) (st : St),
+    runM fs st (l₁ ++ l₂) = (match runM fs st l₁ with | .error e => .error e | .ok st' => runM fs st' l₂)
+  | [], l₂, st => rfl
+  | o :: t, l₂, st => by
+    simp only [List.cons_append, runM]
+    cases stepM fs st o with
+    | error e => rfl
+    | ok st' => exact runM_append fs t l₂ st'
+
+/-- `set_configuration` of a valid configuration: the controllers of the space show it, the
+controllers outside the space (those of other formulas only) are not touched -/
+theorem setConfiguration_frame {sp : Space} (hwf : SpaceWF sp) (st : St) {cfg : Config}
+    (h : ValidCfg sp cfg) :
+    ∃ st', setConfiguration sp st cfg = .ok st' ∧ currentSels sp st' = cfg ∧ InRange sp st' ∧
+      ∀ m, m ∉ sp.map Controller.name → st' m = st m := by
+  have hn := names_nodup hwf.sorted
+  obtain ⟨st', h1, h2, h3, h4⟩ := applySels_valid sp hn sp cfg st [] (fun _ hc => hc) hn h
+  obtain ⟨st'', g1, _, _⟩ := setConfiguration_valid hwf st h
+  have : st'' = st' := by
+    unfold setConfiguration at g1
+    rw [h1] at g1
+    dsimp only at g1
+    split at g1
+    · cases g1; rfl
+    · cases g1
+  subst this
+  exact ⟨st'', g1, h2, h3, h4⟩
+
 end Cat
